@@ -558,17 +558,21 @@ def _forms_case(scr, part, kind, x0, y0, x1, y1, cursors):
     g = scr.g
     c = g.maxattr
     results = {}
-    for cur in cursors:
+    for cur, parkby in [(cu, 'pset') for cu in cursors] + [(cursors[1], 'draw')]:
         for form in _forms_of(kind):
             case = {'mode': [g.adapter, g.nr, g.mode.name], 'leg': 'forms', 'kind': kind, 'p': [x0, y0, x1, y1],
-                    'cursor': list(cur), 'form': list(form)}
+                    'cursor': list(cur), 'form': list(form), 'parkby': parkby}
             if kind == 'pset':
                 xx0, yy0 = x1, y1
             else:
                 xx0, yy0 = x0, y0
             # park the cursor without changing a pixel; an omitted first point *is* the cursor
             park = (xx0, yy0) if form[0] == 'omit' else cur
-            if not _run(scr, part, b'PSET (%d,%d),%d' % (park[0], park[1], scr.tmpl[park[1]][park[0]]), 'forms', case):
+            if parkby == 'draw':
+                # the cursor as DRAW leaves it (a blind move plots nothing)
+                if not _run(scr, part, b'DRAW "BM%d,%d"' % (park[0], park[1]), 'forms', case):
+                    return
+            elif not _run(scr, part, b'PSET (%d,%d),%d' % (park[0], park[1], scr.tmpl[park[1]][park[0]]), 'forms', case):
                 return
             stmt = _form_stmts(kind, form, xx0, yy0, x1, y1, c, park)
             part.n += 1
@@ -584,13 +588,13 @@ def _forms_case(scr, part, kind, x0, y0, x1, y1, cursors):
                 return
             d2 = scr.diff()
             res = (tuple(sorted(d1.items())), tuple(sorted(d2)))
-            results[(cur, form)] = (res, stmt, case)
-    base = results[(cursors[0], _forms_of(kind)[0])]
+            results[(cur, form, parkby)] = (res, stmt, case)
+    base = results[(cursors[0], _forms_of(kind)[0], 'pset')]
     for key, (res, stmt, case) in results.items():
         if res[0] != base[0][0]:
             part.violation('forms/%s/%s-%s/pixels-differ-from-absolute-form' % (kind, key[1][0], key[1][1]),
-                           '%s: %r with the cursor at %r changes %r; %r changes %r' % (
-                               scr.tag, stmt, key[0], res[0][:6], base[1], base[0][0][:6]), case)
+                           '%s: %r with the cursor put at %r by %s changes %r; %r changes %r' % (
+                               scr.tag, stmt, key[0], key[2].upper(), res[0][:6], base[1], base[0][0][:6]), case)
         elif res[1] != base[0][1]:
             part.violation('forms/%s/%s-%s/cursor-differs-from-absolute-form' % (kind, key[1][0], key[1][1]),
                            '%s: after %r the graphics cursor is at %r; after %r at %r' % (
@@ -655,7 +659,7 @@ def legs(ctx):
     out.append(Leg('forms', [(m, kf) for m in modes], work_forms, exhaustive=True,
                    bound='%d modes x {LINE, LINE B, LINE BF, GET, PSET} x all point pairs of a %dx%d window x every '
                          'combination of absolute / STEP / omitted first point and absolute / STEP second point x 3 '
-                         'positions of the graphics cursor: same pixels and same resulting cursor as the absolute form' % (
+                         'positions of the graphics cursor (left there by PSET, one also by DRAW): same pixels and same resulting cursor as the absolute form' % (
                              len(modes), kf, kf)))
     if not q:
         m = modes[0]
